@@ -1,8 +1,10 @@
 use crate::Outcome;
 use serde_json::Value;
 
+mod c03;
 mod c07;
 mod c08;
+mod c09;
 mod c10;
 mod c10_limits;
 mod c12;
@@ -10,6 +12,8 @@ mod c14;
 mod c33;
 mod c17_sdl;
 mod c20;
+mod c21;
+mod c29;
 mod c20_policy;
 mod strings;
 
@@ -42,6 +46,10 @@ fn run_inner(case: &str, args: &Value) -> Option<Outcome> {
         "c33_subtype" => Some(c33::subtype(args)),
         "c14_pos" => Some(c14::pos(args)),
         "c12_upload" => Some(c12::upload(args)),
+        "c03_errors" => Some(c03::errors(args)),
+        "c21_redact" => Some(c21::redact(args)),
+        "c29_loader" => Some(c29::loader(args)),
+        "c09_validate" => Some(c09::validate(args)),
         "c12_parse" => Some(c12::parse(args)),
         "c15_quoted" => Some(strings::quoted(args)),
         "c17_escape" => Some(strings::escape(args)),
@@ -67,6 +75,10 @@ pub fn search(case: &str, seed: u64, open: &[String]) -> Option<SearchResult> {
         "c33_subtype" => Box::new(c33::inputs(seed)),
         "c14_pos" => Box::new(c14::pos_inputs(seed)),
         "c12_upload" => Box::new(c12::upload_inputs(seed)),
+        "c03_errors" => Box::new(c03::inputs(seed, open)),
+        "c21_redact" => Box::new(c21::inputs(seed, open)),
+        "c29_loader" => Box::new(c29::inputs(seed)),
+        "c09_validate" => Box::new(c09::inputs(seed, open)),
         "c12_parse" => Box::new(c12::parse_inputs(seed)),
         "c15_quoted" | "c17_escape" => Box::new(strings::string_inputs(seed)),
         "c17_input_value" | "c17_sdl" => Box::new(c17_sdl::inputs(seed, open)),
